@@ -248,10 +248,15 @@ impl Agg {
         }
         if relevant {
             self.nontrivial_runs += 1;
-            self.scen_hashes.insert(scn::scenario_hash(scn_));
+            // bounded (the count is then a lower bound)
+            if self.scen_hashes.len() < 2_000_000 {
+                self.scen_hashes.insert(scn::scenario_hash(scn_));
+            }
         }
-        for s in &rep.abstract_states {
-            self.states.insert(*s);
+        if self.states.len() < 2_000_000 {
+            for s in &rep.abstract_states {
+                self.states.insert(*s);
+            }
         }
         self.worlds.insert(scn_.world);
         self.log_hash = self.log_hash.rotate_left(7) ^ rep.hash;
